@@ -1,7 +1,7 @@
 #!/bin/bash
 # usage: seed_try.sh <PROP> <seed_dir> <scratch_worktree> [tier]
 # 1. confirms in the scratch worktree that the demo fails with the patch and passes without, and that the suite passes with it
-# 2. applies the patch to /repo, runs the check, reverts
+# 2. applies the patch in the scratch worktree, runs the check against it (VERIF_REPO), reverts
 set -u
 P=$1; S=$2; W=$3; TIER=${4:-quick}
 export GOFLAGS=-mod=mod GOPROXY=off GOSUMDB=off GOTOOLCHAIN=local
@@ -18,4 +18,5 @@ cp $S/demo_test.go $W/$PKG/zz_seed_demo_test.go
 (cd $W && go test -vet=off -count=1 ./$PKG/ -run 'Seed|seed|Demo|demo|TestC[0-9][0-9]' 2>&1 | tail -3) > /tmp/seed_without.log
 grep -q "^ok" /tmp/seed_without.log && echo "demo WITHOUT patch: PASS (expected)" || { echo "demo WITHOUT patch did not pass:"; cat /tmp/seed_without.log; }
 rm $W/$PKG/zz_seed_demo_test.go; rm -f $W/test_outputs/connlist/actual_*
-cd /verif && git -C /repo apply $S/patch.diff && { ./check $P $TIER 2>&1 | grep -v "^ZZ_" | tail -6; echo "check exit=${PIPESTATUS[0]}"; }; git -C /repo checkout -- . 
+# the check runs against the scratch worktree (VERIF_REPO), so /repo is never touched and other checks may run meanwhile
+cd $W && git checkout -q -- . && git apply $S/patch.diff && cd /verif && { VERIF_REPO=$W ./check $P $TIER 2>&1 | grep -v "^ZZ_" | tail -6; echo "check exit=${PIPESTATUS[0]}"; }; git -C $W checkout -q -- .
